@@ -299,7 +299,7 @@ def rule_to_uint64(chk):
                 if "panicking" in str(e):
                     bad = bad or "to_uint64(%s(%r)) aborts" % (kind, v)
                     continue
-                chk.note("C13.conv: Constant::to_uint64 is not readable (%s)" % str(e)[:60])
+                chk.unreadable("C13.conv/to_uint64/readable", "Constant::to_uint64", e, where(fn))
                 return
             got = r.fields.get("0") if isinstance(r, I.Enum) and r.variant == "Some" else None
             if isinstance(v, float):
@@ -654,6 +654,36 @@ def rule_cast_eval(chk, ec):
     for t_ in SCALAR2CONST:
         chk.ob("C13.cast/%s/present" % t_, True, "target handled", where(ec), trivial=True)
     chk.floor("C13.floor/cast-table", n, 48, "source-kind x target entries of evaluate_cast", where(ec))
+    # enum targets: the value is converted to the target enum's own underlying type (int or uint, deduced per enum)
+    # and wrapped with the target's id - whatever the source was, another enum included
+    for under in ("Int32", "UInt32"):
+        if under not in cv.u.names or "Enum" not in cv.u.names:
+            continue
+        module = I.Enum("Module", None, {"type_registry": I.Opaque("types"), "enum_registry": I.Enum("EnumRegistry", None, {
+            "type_ids": [cv.u.type_id("Enum")], "underlying_type_ids": [cv.u.type_id(under)], "underlying_scalars": [I.Enum("ScalarType", under)]})})
+        bad = None
+        for kind, values in SRC.items():
+            for v in values:
+                for wrapped in (False, True):
+                    c = I.Enum("Constant", kind, {"0": v})
+                    if wrapped:
+                        c = I.Enum("Constant", "Enum", {"0": I.Enum("EnumId", None, {"0": 1}), "1": c})
+                    try:
+                        r = ip.apply(ec, [cv.u.type_id("Enum"), c, module])
+                    except I.Unknown as e:
+                        if "panicking" in str(e):
+                            continue
+                        return True         # not readable for enum targets: the shape rule of rule_cast judges the arm
+                    if not (isinstance(r, I.Enum) and r.variant == "Ok"):
+                        continue
+                    got = r.fields["0"]
+                    want = ref(under, kind, v)
+                    inner = got.fields.get("1") if isinstance(got, I.Enum) and got.variant == "Enum" else None
+                    ok = isinstance(inner, I.Enum) and isinstance(got.fields.get("0"), I.Enum) and got.fields["0"].fields.get("0") == 0 and (inner.variant, inner.fields.get("0")) == want
+                    if not ok:
+                        bad = bad or "casting Constant::%s(%r)%s to an enum whose underlying type is %s gives %s, must be Enum(target, %s(%r))" % (
+                            kind, v, " of another enum" if wrapped else "", under, got, want[0], want[1])
+        chk.ob("C13.cast/Enum/underlying-%s" % under, bad is None, "every source constant (plain or of another enum) is converted to the target enum's underlying type and re-tagged" if bad is None else bad, where(ec))
     return True
 
 
